@@ -83,6 +83,13 @@ CollinearOverlap(e, f) == /\ Orient(e[1], e[2], f[1]) = 0 /\ Orient(e[1], e[2], 
                                  hi == IF Lex(A[2], B[2]) THEN A[2] ELSE B[2]
                              IN Lex(lo, hi)
 
+\* would the single meeting point of the two segments (if any) be integral?  (total: never asserts)
+IntegralMeet(e, f) ==
+  LET va == Sub(e[2], e[1])  vb == Sub(f[2], f[1])  d == Sub(f[1], e[1])
+      k == Cross(va, vb)  sN == Cross(d, vb)  tN == Cross(d, va)
+      out(x) == IF k > 0 THEN x < 0 \/ x > k ELSE x > 0 \/ x < k
+  IN k = 0 \/ out(sN) \/ out(tN) \/ IntegralAlong(va, sN, k)
+
 \* set of proper/improper single meeting points of two non-collinear segments
 XPts(e, f) == LET i == SegInter(e[1], e[2], f[1], f[2]) IN IF i.k = "point" THEN {i.p} ELSE {}
 
